@@ -23,6 +23,8 @@ CATALOGUE = {
     'NOND': ('re', r'\D', ''), 'NL': ('re', r'\n', ''), 'NLO': ('re', r'\012', ''), 'NLX': ('re', r'\x0a+', ''),
     'NLC': ('re', r'[\n]', ''), 'SP': ('str', ' ', ''), 'COMMENT': ('re', r'#[^\n]*', ''), 'ANYS': ('re', r'(?s:.)b', ''),
     'NLSTR': ('str', r'\n', ''), 'SPNL': ('re', r' *\n', ''), 'NONS': ('re', r'\S+', ''), 'MLC': ('re', r'/\*.*?\*/', 's'),
+    # X_: only in directed terminal sets (never drawn by random_termset)
+    'X_AI': ('str', 'a', 'i'), 'X_IFEQ': ('str', 'if=', ''), 'X_LOWNB': ('re', '(?<!1)[a-z]+', ''), 'X_LOWB': ('re', r'[a-z]+\b', ''),
 }
 NEWLINE_KEYS = ['WS', 'NOTA', 'DOTS', 'CTRL', 'NONW', 'NOND', 'NL', 'NLO', 'NLX', 'NLC', 'ANYS', 'NLSTR', 'SPNL', 'MLC']
 ALPHABET = 'abifIF 1+=\n'
@@ -139,7 +141,7 @@ def regexps_overlap(terms, alphabet=ALPHABET, maxlen=3):
 
 
 def random_termset(rng, keys=None, n=None, newline_bias=False):
-    pool = list(keys or CATALOGUE)
+    pool = [k for k in (keys or CATALOGUE) if not k.startswith('X_')]
     n = n or rng.choice([2, 3, 3, 4, 5])
     chosen = rng.sample(pool, min(n, len(pool)))
     if newline_bias and not any(k in NEWLINE_KEYS for k in chosen):
